@@ -12,6 +12,7 @@ HOME = os.environ.get('VERIF_HOME', os.path.dirname(os.path.dirname(
     os.path.abspath(__file__))))
 REPO = os.environ.get('VERIF_REPO', '/repo')
 PY = '/venv/bin/python'
+TIER = ['quick']       # set by main(): native drivers scale with it
 
 
 def ob(name, status, kind='lemma', backend='', seconds=0.0, detail=None,
@@ -137,6 +138,7 @@ def run_python(code, repo=None, timeout=120, stdin=None):
     env = dict(os.environ)
     env['PYTHONPATH'] = repo + os.pathsep + HOME
     env['PYTHONWARNINGS'] = 'ignore'
+    env['VERIF_TIER'] = TIER[0]
     try:
         p = subprocess.run([PY, '-c', code], capture_output=True, text=True,
                            timeout=timeout, env=env, cwd=HOME, input=stdin)
